@@ -11,6 +11,9 @@ Definition sep_cs : str := [ch_comma; ch_space].           (* ", " *)
 
 Definition is_empty (s : str) : bool := match s with [] => true | _ => false end.
 
+(* not e.strip(" "): the text is empty or holds only U+0020 *)
+Definition is_blank (s : str) : bool := forallb (N.eqb ch_space) s.
+
 (* ---------- the three character classes of the pattern ----------
    pattern = c1 p1 oldvalue p2 c2 where the named groups are the greedy stars
    c1 = [\s,]* , p1 = [(\s]* , p2 = [\s)]* , c2 = [\s,]* .
@@ -181,10 +184,11 @@ Definition remove_ref_fixed (lit s : str) : str := resub_iter (length s) lit s.
    (_remover tests for a comma) and a8ad4f5 (occurrences are removed one at a time).
    fixed = false: the behaviour BEFORE those commits, kept only as the record of the
    repaired defects (it is not a model of the current implementation). *)
-Definition replace_ref (fixed : bool) (text ref newvalue : str) : res str :=
+Definition replace_ref_gen (blank fixed : bool) (text ref newvalue : str) : res str :=
   let old := brace ref in
   if fixed then
-    if str_eqb newvalue ch_na || is_empty newvalue then Ok (remove_ref_fixed old text)
+    if str_eqb newvalue ch_na || is_empty newvalue || (blank && is_blank newvalue)
+    then Ok (remove_ref_fixed old text)
     else Ok (str_replace old newvalue text 0)
   else if negb (str_eqb newvalue ch_na) then Ok (str_replace old newvalue text 0)
   else
@@ -195,6 +199,15 @@ Definition replace_ref (fixed : bool) (text ref newvalue : str) : res str :=
         else if (n =? 0)%N then Exn AttributeError         (* None.count("(") *)
         else Ok (resub_quant (n =? 1)%N text 0)
     end.
+
+(* Does replace_ref treat a blanks-only replacement like an empty one?  true = the code as it
+   is since fix commit d53ebab (newvalue.strip(" ") == "" goes to the remover); false = the
+   behaviour BEFORE that commit (repaired defect C06-F8: blanks substituted literally), kept
+   as replace_ref_gen false for the record theorems.  The harness reads this constant. *)
+Definition blank_ref_removed : bool := true.
+
+Definition replace_ref (fixed : bool) (text ref newvalue : str) : res str :=
+  replace_ref_gen blank_ref_removed fixed text ref newvalue.
 
 (* ---------- re.findall(r"\{([a-z_\-0-9]+)\}", s, re.IGNORECASE) ----------
    With IGNORECASE on a str pattern the range a-z also matches U+0130, U+0131,
